@@ -6,6 +6,8 @@ Nothing in this module imports attr.validators."""
 from __future__ import annotations
 
 import abc
+import array
+import collections
 import collections.abc
 import decimal
 import fractions
@@ -215,6 +217,46 @@ def _hostile(spec):
     return o
 
 
+_INTERVAL_CACHE: dict = {}
+
+
+def _interval_class(hashable, itermode, eqdef):
+    """a range-like container with VALUE membership: `x in Interval(lo, hi)` is `lo <= x <= hi` (a TypeError for
+    incomparable x), which is not "equal to one of the iterated items"
+       itermode -- None: not iterable; "ends": yields lo, hi; "ints": every int inside; "outside": yields hi + 5 only
+       eqdef    -- `==` by (lo, hi) (then unhashable unless `hashable`), else identity"""
+    key = (hashable, itermode, eqdef)
+    cls = _INTERVAL_CACHE.get(key)
+    if cls is not None:
+        return cls
+    ns = {"_interval": True}
+
+    def __init__(self, lo, hi):
+        self.lo, self.hi = lo, hi
+
+    def __contains__(self, x):
+        return self.lo <= x <= self.hi
+
+    def __repr__(self):
+        return "Interval(%r, %r)" % (self.lo, self.hi)
+    ns.update(__init__=__init__, __contains__=__contains__, __repr__=__repr__)
+    if itermode == "ends":
+        ns["__iter__"] = lambda self: iter((self.lo, self.hi))
+    elif itermode == "ints":
+        ns["__iter__"] = lambda self: iter(range(self.lo, self.hi + 1))
+        ns["__len__"] = lambda self: self.hi + 1 - self.lo
+    elif itermode == "outside":
+        ns["__iter__"] = lambda self: iter((self.hi + 5,))
+    if eqdef:
+        ns["__eq__"] = lambda self, other: type(other) is type(self) and (self.lo, self.hi) == (other.lo, other.hi)
+        ns["__hash__"] = (lambda self: hash((self.lo, self.hi))) if hashable else None
+    elif not hashable:
+        ns["__hash__"] = None
+    cls = type("Interval", (object,), ns)
+    _INTERVAL_CACHE[key] = cls
+    return cls
+
+
 _LIAR_CACHE: dict = {}
 
 
@@ -379,6 +421,19 @@ def mk(d):
         return out
     if tag == "generic":
         return list[int]
+    if tag == "bytearray":
+        return bytearray(d[1].encode("latin1"))
+    if tag == "deque":
+        return collections.deque(mk(e) for e in d[1])
+    if tag == "userlist":
+        return collections.UserList([mk(e) for e in d[1]])
+    if tag == "ordereddict":
+        return collections.OrderedDict((mk(k), mk(v)) for k, v in d[1])
+    if tag == "array":
+        return array.array("i", d[1])
+    if tag == "interval":
+        f = d[3]
+        return _interval_class(bool(f.get("hashable")), f.get("iter"), bool(f.get("eq")))(d[1], d[2])
     if tag == "decimal":
         return decimal.Decimal(d[1])
     if tag == "fraction":
@@ -450,6 +505,10 @@ def fp(v) -> str:
         return t.__name__ + "{" + ",".join(sorted(fp(e) for e in v)) + "}"
     if t is range:
         return "range(%d,%d,%d)" % (v.start, v.stop, v.step)
+    if t is bytearray:
+        return "bytearray:" + bytes(v).hex()
+    if t.__dict__.get("_interval") is True:
+        return "interval(%s,%s)" % (fp(v.lo), fp(v.hi))
     if t is decimal.Decimal:
         return "decimal:" + str(v)
     if t is fractions.Fraction:
